@@ -492,7 +492,7 @@ func c09Exec(t *testing.T, r *kit.Run) func(wProg) kit.Outcome {
 		if two {
 			o.Classes = append(o.Classes, "two-valid-notes")
 		}
-		if fail != "" {
+		if fail != "" && res.Viol == nil {
 			o.Skip = true
 			fmt.Println("C09 bubble failure (not judged here):", firstLine(fail))
 			return o
